@@ -185,7 +185,7 @@ pub fn cfg_for(driver: &str, tier: &str) -> Option<(Cfg, u32)> {
                 vec![KindSpec::Timer(i8::MAX), KindSpec::Timer(2)],
             ]
             .into_iter()
-            .take(if q { 5 } else { 7 })
+            .take(if q { 4 } else { 7 })
             {
                 let mut s = idle.clone();
                 s.extend(timers);
@@ -230,16 +230,34 @@ pub fn cfg_for(driver: &str, tier: &str) -> Option<(Cfg, u32)> {
             c.final_dispatches = 1;
             (c, if q { 1 } else { 2 })
         }
+        // C10 (StreamSource): items in order exactly once, a single None, then the source is gone
+        "stream-seq" => {
+            let mut c = Cfg::base("stream-seq");
+            c.initial_sets = vec![vec![KindSpec::Stream], vec![KindSpec::Stream, KindSpec::Ping], vec![KindSpec::Stream, KindSpec::Stream]];
+            c.max_actors = 2;
+            c.depth = if q { 5 } else { 8 };
+            c.top_update = true;
+            c.cb_cause = true;
+            c.cb_cause2 = true;
+            c.tag_all = Some("C10");
+            c.check_epoll = true;
+            c.check_wait = true;
+            c.top_dispatch_none = true;
+            c.prune = true;
+            c.final_dispatches = 2;
+            (c, if q { 1 } else { 2 })
+        }
         // C10 (sequential half): schedule / complete / remove histories of an executor
         "exec-seq" => {
             let mut c = Cfg::base("exec-seq");
             c.initial_sets = vec![vec![KindSpec::Exec], vec![KindSpec::Exec, KindSpec::Ping]];
             c.max_actors = 2;
-            c.depth = if q { 6 } else { 8 };
+            c.depth = if q { 5 } else { 8 };
             c.max_cb_ops = 1;
             c.top_update = true;
             c.cb_cause = true;
             c.exec_pending = true;
+            c.exec_initial_pending = 2;
             c.tag_all = Some("C10");
             c.check_epoll = true;
             c.check_wait = true;
